@@ -455,9 +455,9 @@ def lifetime_accumulation(case, ctx):
         else:
             ctx.label("fails_in_pass_2")
             want = 1.0 + (1.0 - D1) / D2          # pass 1 once, then the fraction of pass 2 (linear within the pass)
-            if ctx.known("FC09_a"):
-                return
             if not _close(seq, want, RT):
+                if seq == 0 and ctx.known("FC09_a"):
+                    return        # the documented sentinel 0 (known finding FC09_a); any other value is still a violation
                 raise V("damage sum reaches 1 inside the first repetition of pass 2 (D1 = %.6g < 1 <= D1 + D2 = %.6g): lifetime_n_times_load_sequence = %r, "
                         "literal accumulation gives 1 + (1 - D1)/D2 = %r" % (D1, D1 + D2, seq, want), "early_pass2_traversals")
         return
